@@ -332,9 +332,21 @@ func (c *Conn) handleControl(ctx context.Context, h header) (err error) {
 
 	err = fmt.Errorf("received close frame: %w", ce)
 	c.writeClose(ce.Code, ce.Reason)
-	c.readMu.unlock()
-	c.close()
+	// The connection is closed by readUnlock once the read call stack has unwound:
+	// the callers may still be using resources that close releases.
+	c.peerClosed = true
+	c.peerCloseErr = err
 	return err
+}
+
+// readUnlock releases readMu and closes the connection if the peer's close
+// frame was handled while it was held.
+func (c *Conn) readUnlock() {
+	peerClosed := c.peerClosed
+	c.readMu.unlock()
+	if peerClosed {
+		c.close()
+	}
 }
 
 func (c *Conn) reader(ctx context.Context) (_ MessageType, _ io.Reader, err error) {
@@ -344,7 +356,7 @@ func (c *Conn) reader(ctx context.Context) (_ MessageType, _ io.Reader, err erro
 	if err != nil {
 		return 0, nil, err
 	}
-	defer c.readMu.unlock()
+	defer c.readUnlock()
 
 	if !c.msgReader.fin {
 		return 0, nil, errors.New("previous message not read to completion")
@@ -408,7 +420,7 @@ func (mr *msgReader) Read(p []byte) (n int, err error) {
 	if err != nil {
 		return 0, fmt.Errorf("failed to read: %w", err)
 	}
-	defer mr.c.readMu.unlock()
+	defer mr.c.readUnlock()
 
 	n, err = mr.limitReader.Read(p)
 	if mr.flate && mr.flateContextTakeover() {
